@@ -153,7 +153,7 @@ Section MovingFin.
     mi_stack : fm_stack m = S;
     mi_nfinal : fm_nfinal m = length Fin;
     mi_last : fm_last m = libref (db s);
-    mi_finals : forall id, In id (fm_finals m) -> In id (map bid Fin);
+    mi_finals : forall id, In id (fm_finals m) -> In id (map bid Fin) \/ id = ri r0;
     mi_stalled : forall id, In id (fm_stalled m) -> exists y, In y U /\ bid y = id /\ bnum y <= rn (libref (db s));
     mi_fresh : S = [] -> fm_any m = false /\ fm_stalled m = []
   }.
@@ -184,13 +184,16 @@ Section MovingFin.
     rewrite Hirr in HmI.
     pose proof HI as [Hd Hfin Hflast Hh]. pose proof HI' as [Hd' Hfin' Hflast' Hh'].
     rewrite Forall_forall in Hfin, Hfin'.
+    assert (Hr0L : rn r0 <= rn (libref (db s))) by (destruct (di_coh U r0 _ Hd) as (_ & _ & _ & H & _); exact H).
     exists s', (evA ++ evI ++ evS), (Fin ++ Fnew), S'.
     (* phase A *)
     assert (HA : fin_events (ri r0) r0 b m evA = Some (with_stack m S')).
     { apply fin_A; [rewrite Hms; exact Happ | exact HsA|].
       intros e He Hs Hin. destruct (HuA e He Hs) as [HeU Hen].
-      apply Hmf in Hin. apply in_map_iff in Hin as (x & Ex & Hx). destruct (Hfin x Hx) as [HxU Hxn].
-      assert (x = eblk e) by (apply U_uniq; assumption). subst x. lia. }
+      apply Hmf in Hin. destruct Hin as [Hin|Hin].
+      - apply in_map_iff in Hin as (x & Ex & Hx). destruct (Hfin x Hx) as [HxU Hxn].
+        assert (x = eblk e) by (apply U_uniq; assumption). subst x. lia.
+      - pose proof (L_num _ HeU Hin). lia. }
     destruct (inv_stack _ _ _ HI') as [rest Hrev]. rewrite <- app_assoc in Hrev.
     destruct HFnew as [[HFnew HFlk]|(Hls0 & Hbid & -> & -> & e0 & -> & He0 & Heb)].
     - (* a run of blocks above the old LIB *)
@@ -218,7 +221,8 @@ Section MovingFin.
         split; [|split; [|split]].
         - rewrite I4. intros Hin. apply Hnin. apply Hsub. rewrite map_app. apply in_app_or in Hin as [Hin|Hin].
           + apply in_or_app. right. rewrite <- in_rev in Hin. exact Hin.
-          + apply in_or_app. left. apply Hmf. exact Hin.
+          + apply Hmf in Hin. destruct Hin as [Hin|Hin]; [apply in_or_app; left; exact Hin|].
+            pose proof (L_num _ HeU Hin). lia.
         - rewrite I5. intros Hin. destruct (Hmst _ Hin) as (y & HyU & Hyid & Hyn).
           assert (y = eblk e) by (apply U_uniq; assumption). subst y. lia.
         - rewrite I1. exact Hnin.
@@ -230,8 +234,8 @@ Section MovingFin.
       + rewrite S2. exact I2.
       + rewrite S3. exact Hlast'.
       + intros id Hin. rewrite S4, I4 in Hin. rewrite map_app. apply in_app_or in Hin as [Hin|Hin].
-        * apply in_or_app. right. rewrite <- in_rev in Hin. exact Hin.
-        * apply in_or_app. left. apply Hmf. exact Hin.
+        * left. apply in_or_app. right. rewrite <- in_rev in Hin. exact Hin.
+        * apply Hmf in Hin. destruct Hin as [Hin|Hin]; [left; apply in_or_app; left; exact Hin | right; exact Hin].
       + intros id Hin. rewrite S5, I5 in Hin. apply in_app_or in Hin as [Hin|Hin].
         * rewrite <- in_rev in Hin. apply in_map_iff in Hin as (e & <- & He).
           destruct (Hstl e He) as (HeU & [Hlo Hhi] & _). exists (eblk e). auto.
@@ -259,7 +263,7 @@ Section MovingFin.
       + reflexivity.
       + reflexivity.
       + apply (inv_last_ref s' ([] ++ [b]) [] b S' HI'). reflexivity.
-      + intros id [<-|Hin]; [left; reflexivity | apply Hmf in Hin; destruct Hin].
+      + intros id [<-|Hin]; [left; left; reflexivity | apply Hmf in Hin; destruct Hin as [[]|Hin]; right; exact Hin].
       + rewrite Fs. intros id [].
       + intros HS'. rewrite HS' in Hrev. discriminate.
   Qed.
